@@ -16,7 +16,6 @@ import (
 	"time"
 
 	"github.com/tinode/chat/server/zzverif/memdb"
-	"github.com/tinode/chat/server/zzverif/vatomic"
 	"github.com/tinode/chat/server/zzverif/vfev"
 	"github.com/tinode/chat/server/zzverif/vsched"
 )
@@ -145,6 +144,9 @@ func vfAtLoadRun(r *vfev.Report, nbp *int, shard, shards int, target string, nop
 					if injected {
 						return
 					}
+					if vsched.CurrentID() == vfMainG {
+						return // the harness's own goroutine: not a position inside the first request
+					}
 					n++
 					if n == k {
 						injected = true
@@ -165,8 +167,8 @@ func vfAtLoadRun(r *vfev.Report, nbp *int, shard, shards int, target string, nop
 					event("before store call " + name)
 				}
 				memdb.OnReturn = func(name string) { event("after store call " + name) }
-				vatomic.OnOp = func(write bool) { event("atomic operation") }
-				restore := func() { memdb.OnCall, memdb.OnReturn, vatomic.OnOp = prev, nil, nil }
+				vsched.OnPoint = func(kind string) { event(kind) }
+				restore := func() { memdb.OnCall, memdb.OnReturn, vsched.OnPoint = prev, nil, nil }
 				vsched.OnKill(restore)
 				subCode, _ = t.cl[loader].Req(`{"sub":{"id":"$ID","topic":"%s"}}`, addr)
 				restore()
@@ -333,6 +335,9 @@ func vfAtEnd(prop, part string) {
 							if injected {
 								return
 							}
+							if vsched.CurrentID() == vfMainG {
+								return // the harness's own goroutine: not a position inside the first request
+							}
 							n++
 							if n == k {
 								injected = true
@@ -349,8 +354,8 @@ func vfAtEnd(prop, part string) {
 							event("before store call " + name)
 						}
 						memdb.OnReturn = func(name string) { event("after store call " + name) }
-						vatomic.OnOp = func(write bool) { event("atomic operation") }
-						restore := func() { memdb.OnCall, memdb.OnReturn, vatomic.OnOp = prev, nil, nil }
+						vsched.OnPoint = func(kind string) { event(kind) }
+						restore := func() { memdb.OnCall, memdb.OnReturn, vsched.OnPoint = prev, nil, nil }
 						vsched.OnKill(restore)
 						if what == "unload" {
 							vsched.Advance(idleMasterTopicTimeout + 2*time.Second)
@@ -376,9 +381,6 @@ func vfAtEnd(prop, part string) {
 								}
 							}
 						}
-						if opCode == 0 && c.ended {
-							opCode = -1 // the server ended the connection of the deleted user: nothing more is owed
-						}
 						vsched.Quiesce()
 						// a session which the server has terminated (eviction notice without a topic) has lost its
 						// writer; the peer sees the connection die, i.e. the read side ends as well
@@ -390,6 +392,9 @@ func vfAtEnd(prop, part string) {
 							}
 						}
 						vsched.Quiesce()
+						if opCode == 0 && c.ended {
+							opCode = -1 // the server ended the connection of the deleted user: nothing more is owed
+						}
 						s := t.snap()
 						exists = s.alive()
 						diffs = s.cacheVsStore()
@@ -467,3 +472,6 @@ func vfAtEnd(prop, part string) {
 func TestVerifC14AtEnd(t *testing.T) { vfAtEnd("C14", "at-end") }
 func TestVerifC13AtEnd(t *testing.T) { vfAtEnd("C13", "at-end") }
 func TestVerifC08AtEnd(t *testing.T) { vfAtEnd("C08", "at-end") }
+
+// vfMainG: id of the harness's main goroutine inside vsched.Run (it is the first one).
+const vfMainG = 1
